@@ -462,7 +462,27 @@ def replay_cex(cex, native):
     cex['native'] = notes
     if any(v for v in verdicts):
         return True, '; '.join(notes)
+    if cex.get('corpus') == 'c16':
+        # the candidate came from a modular check in which the callee's verdict is an uninterpreted choice: the
+        # solver's witness need not make the real parser take that choice. Confirm or refute on accepted / rejected
+        # lines with and without trailers (same entries, same predicate).
+        for inp in C16_CORPUS:
+            reqs2 = [(e, inp) for e, _ in reqs]
+            for prof in ('dev', 'release'):
+                lines = native(reqs2, prof)
+                if violated(cex, [outcome_fields(l) for l in lines]):
+                    cex['runs'] = [[e, inp.hex()] for e, _ in reqs]
+                    note = '%s on corpus input %r: %s => reproduces' % (prof, inp, ' | '.join(lines))
+                    cex['native'] = notes + [note]
+                    cex['summary'] = cex.get('summary', '') + ' [confirmed on %r]' % inp
+                    return True, note
+        notes.append('no input of the %d-line C16 corpus reproduces it either' % len(C16_CORPUS))
     return False, '; '.join(notes)
+
+
+C16_CORPUS = [h + t for h in (b'PROXY UNKNOWN\r\n', b'PROXY UNKNOWN extra text\r\n', b'PROXY TCP4 1.2.3.4 5.6.7.8 1 2\r\n', b'PROXY TCP6 ::1 ::2 443 65535\r\n',
+                              b'PROXY UNKNOWN \xc3\xa9\r\n', b'PROXY TCP4 1.2.3.4 5.6.7.8 1 2\rX', b'PROXY TCP4 1.2.3.4', b'PROXY UNKNOWN\r', b'HELLO\r\n')
+              for t in (b'', b'X', b'hello', b'\r\n', b'\n', b'\xc3\xa9', b' ' * 80)]
 
 
 def views_wrong(line, inp):
@@ -542,6 +562,8 @@ def violated(cex, o):
         a = [(x['ok'], x['err'], x.get('addr')) for x in o]
         if any(x['panic'] for x in o):
             return True
+        if all(x['ok'] and x.get('len') is not None for x in o) and len({x.get('len') for x in o}) > 1:
+            return True         # both accept but report header texts of different lengths
         return a[0] != a[1] and not (a[0][0] is False and a[1][0] is False and cex.get('both_errors_ok'))
     if k == 'write_to':
         return 'ok=false' in o[0]['raw'] or o[0]['panic']
@@ -1018,7 +1040,7 @@ def c16_modular(prog, lmax):
                 if r == z3.sat:
                     rec['status'] = 'sat'
                     bts = v1sum.model_bytes(s.model(), ctx)
-                    rec['cex'] = {'runs': [['v1_str', bts.hex()], [ENTRY_OF[kind], bts.hex()]], 'violated_if': 'outcomes_differ_c16',
+                    rec['cex'] = {'runs': [['v1_str', bts.hex()], [ENTRY_OF[kind], bts.hex()]], 'violated_if': 'outcomes_differ_c16', 'corpus': 'c16',
                                   'summary': '%s does not pass the result of try_from(&str) through on %r' % (kind, bts)}
                 else:
                     rec['status'] = 'unsat' if r == z3.unsat else 'unknown'
